@@ -67,9 +67,15 @@ pub fn show_obs(o: &Obs) -> String {
 
 /// runs the history on the real e-graph; one output per `Q`
 pub fn run_history<L: HLang>(ops: &[Op], check_each: bool) -> Result<Vec<String>, String> {
+    run_history_n::<L, ()>(ops, check_each)
+}
+
+/// the same with an analysis attached (the analysis must not influence any of the observables: equalities, slot counts,
+/// symmetry counts and class counts are those of the congruence closure)
+pub fn run_history_n<L: HLang, N: Analysis<L> + Default>(ops: &[Op], check_each: bool) -> Result<Vec<String>, String> {
     fresh_noise(&enc_ops(ops));
     warm_up(&enc_ops(ops));
-    let mut eg: EGraph<L> = EGraph::default();
+    let mut eg: EGraph<L, N> = EGraph::default();
     let mut tracked: Vec<AppliedId> = Vec::new();
     let mut outs = Vec::new();
     for (k, op) in ops.iter().enumerate() {
@@ -193,7 +199,8 @@ pub fn gen_history(rng: &mut Rng) -> (Vec<Op>, &'static str) {
 }
 
 fn gen_history0(rng: &mut Rng) -> (Vec<Op>, &'static str) {
-    let stream = match rng.below(29) {
+    let stream = match rng.below(30) {
+        29 => "twicered",
         28 => "latesym",
         27 => "redsym4",
         26 => "wred",
@@ -238,8 +245,9 @@ fn gen_history0(rng: &mut Rng) -> (Vec<Op>, &'static str) {
     if stream == "inherit" || stream == "symred" || stream == "deepsym" || stream == "upmerge" {
         return (gen_structured(rng, stream), stream);
     }
-    if stream == "tripledep" || stream == "collapse" || stream == "shadow" || stream == "migrate" || stream == "fcapture" || stream == "symred4" || stream == "sumxor" || stream == "symbinder" || stream == "wred" || stream == "redsym4" || stream == "latesym" {
+    if stream == "tripledep" || stream == "collapse" || stream == "shadow" || stream == "migrate" || stream == "fcapture" || stream == "symred4" || stream == "sumxor" || stream == "symbinder" || stream == "wred" || stream == "redsym4" || stream == "latesym" || stream == "twicered" {
         let raw = match stream {
+            "twicered" => gen_twicered(rng),
             "redsym4" => gen_redsym4(rng),
             "latesym" => gen_latesym(rng),
             "tripledep" => gen_tripledep(rng),
@@ -714,6 +722,42 @@ pub fn gen_latesym(rng: &mut Rng) -> Vec<Op> {
     ops
 }
 
+/// one e-node mentions the same child class twice; the class then gets a redundant position, and the slot at that position of
+/// exactly ONE of the two occurrences is used elsewhere in the node (by a sibling): `t3(f3(a,b,c), f3(a,b,d), var c)` and
+/// `f3(a,b,c) = f3(a,b,e)` — the two occurrences need different treatment although they are invocations of one class
+pub fn gen_twicered(rng: &mut Rng) -> Vec<Op> {
+    let t3 = |x: ATerm, y: ATerm, z: ATerm| ATerm { v: 17, fields: vec![CField::App, CField::App, CField::App], children: vec![x, y, z] };
+    let (a, b, c, d, e) = (4u32, 8u32, 12u32, 16u32, 20u32);
+    let mut pos: Vec<usize> = (0..3).collect();
+    rng.shuffle(&mut pos);
+    let red = pos[0];
+    let f = |last: u32| {
+        let mut sl = [a, b, a];
+        let mut k = 0;
+        for i in 0..3 {
+            if i == red {
+                sl[i] = last;
+            } else {
+                sl[i] = [a, b][k];
+                k += 1;
+            }
+        }
+        leaf(8, &sl)
+    };
+    let sib = if rng.chance(1, 2) { leaf(2, &[c]) } else { leaf(10, &[c]) };
+    let form = rng.chance(1, 2);
+    let parent = |x: u32, y: u32| if form { t3(f(x), f(y), sib.clone()) } else { t3(f(x), sib.clone(), f(y)) };
+    let shared_first = rng.chance(1, 2);
+    let p0 = if shared_first { parent(c, d) } else { parent(d, c) };
+    let mut ops = vec![Op::Add(p0), Op::Add(f(c)), Op::Add(f(e))];
+    ops.push(Op::Add(if shared_first { parent(c, e) } else { parent(e, c) }));
+    if rng.chance(1, 2) {
+        ops.push(Op::Add(if shared_first { parent(e, d) } else { parent(d, e) }));
+    }
+    ops.push(Op::Union(1, 2));
+    ops
+}
+
 /// a free slot spelled like a fresh slot the library has not handed out yet (`$f<N>`, N large), under a binder whose body
 /// already exists as a class: the first fresh slot drawn after the name was read is the one that renames the binder — it
 /// must not be the user's slot.  Two alpha-variants are united (a trivial equation), then `λx. x a` and `λx. x b` are compared
@@ -1099,7 +1143,14 @@ pub fn exec_ops(ops: Vec<Op>, stream: &str, check_each: bool) -> Case {
     let ops2 = ops.clone();
     let r = in_fresh_thread(move || {
         intern_names();
-        run_history::<Main>(&ops2, check_each)
+        // a quarter of the histories (a function of the case line) run with the min-size analysis attached: pending entries
+        // then come in two kinds (analysis-only and full), and the closure must be the same
+        let h = enc_ops(&ops2).bytes().fold(0xcbf29ce484222325u64, |h, b| (h ^ b as u64).wrapping_mul(0x100000001b3)) >> 17;
+        if h % 4 == 0 {
+            run_history_n::<Main, crate::suites::ana::MinSize>(&ops2, check_each)
+        } else {
+            run_history::<Main>(&ops2, check_each)
+        }
     });
     let nunions = ops.iter().filter(|o| matches!(o, Op::Union(..))).count();
     let mut tags = vec![format!("s:{stream}")];
